@@ -23,10 +23,7 @@ partial def canon : TVal → TVal
     .map k v (TPairs.ofList ((ys.mergeSort fun a b => a.1 ≤ b.1).map (·.2)))
   | v => v
 
-def shown (v : TVal) : String :=
-  match v with
-  | .struct _ => (canon v).toSexp
-  | _ => "raw:" ++ hexOrDash (Binary.enc .be v)
+def shown (v : TVal) : String := (canon v).toSexp
 
 open Driver.Thrift in
 def inputOf (p : Proto) (v : TVal) : Out Bytes :=
